@@ -65,6 +65,10 @@ func Gob() {
 			}
 		}()
 	}
+	// the foreign schemas of gen.ForeignGob, in order
+	for k := 0; k < gen.ForeignGobShapes; k++ {
+		_ = gen.ForeignGobShape(core.NewTape(uint64(k)+1), k)
+	}
 	// the shapes the harness itself decodes (gob canonicaliser, result rendering)
 	var mm map[string][]byte
 	var ll [][]byte
